@@ -99,9 +99,10 @@ def check_checkjump(ctx, res, rule="R-LIMIT", boundary=False):
         return None
     idx, el, it = None, None, lim_loop.ast.iter
     tgt = lim_loop.ast.target
-    if isinstance(it, ast.Call) and dotted(it.func) == "enumerate" and norm(it.args[0]) == x_lims and isinstance(tgt, ast.Tuple):
-        idx, el = tgt.elts[0].id, tgt.elts[1].id
-        res.holds(rule, f, "loops-over-all-limits", "one check per state: for %s, %s in enumerate(%s)" % (idx, el, x_lims), node=lim_loop.ast)
+    if isinstance(it, ast.Call) and dotted(it.func) == "enumerate" and norm(it.args[0]) == x_lims and isinstance(tgt, ast.Tuple) \
+            and len(tgt.elts) == 2 and isinstance(tgt.elts[0], ast.Name):
+        idx, el = tgt.elts[0].id, tgt.elts[1]       # el: a name or a (lower, upper) pattern
+        res.holds(rule, f, "loops-over-all-limits", "one check per state: for %s in enumerate(%s)" % (norm(tgt), x_lims), node=lim_loop.ast)
     else:
         res.violated(rule, f, "loops-over-all-limits", "limit loop `%s` does not enumerate every state's limit" % norm(lim_loop.ast), node=lim_loop.ast)
         return None
@@ -180,7 +181,13 @@ def check_checkjump(ctx, res, rule="R-LIMIT", boundary=False):
 
 def _run_limit_body(body, el, idx, x_new, lo, hi, val, fail_var):
     """tiny concrete interpreter for the limit-test loop body; returns whether the failure flag was raised"""
-    env = {el: (lo, hi), "__xnew": val, fail_var: False}
+    env = {"__xnew": val, fail_var: False}
+    if isinstance(el, ast.Name):
+        env[el.id] = (lo, hi)
+    elif isinstance(el, (ast.Tuple, ast.List)) and len(el.elts) == 2 and all(isinstance(x, ast.Name) for x in el.elts):
+        env[el.elts[0].id], env[el.elts[1].id] = lo, hi
+    else:
+        return None
 
     def ev(e):
         if isinstance(e, ast.Constant):
